@@ -1,9 +1,14 @@
 package main
 
 import (
+	"context"
 	"fmt"
 	"sort"
 	"strings"
+	"time"
+
+	"github.com/sboehler/knut/lib/journal"
+	"github.com/sboehler/knut/lib/model/registry"
 
 	"github.com/sboehler/knut/lib/model/commodity"
 	"github.com/sboehler/knut/lib/model/price"
@@ -16,6 +21,112 @@ func init() {
 	observers["C12.ins"] = obsC12Ins
 	observers["C12.norm"] = obsC12Norm
 	observers["C12.dec"] = obsC12Dec
+	observers["C12.days"] = obsC12Days
+	gens["C12days"] = genC12Days
+}
+
+// op C12.days: journal.ComputePrices over the days of a journal (the processor that turns the price declarations
+// into the normalised prices every later stage uses: Day.Normalized).
+// input "<V> | <journal>"   observed "<date>:C=p;C=-;... / <date>:..." one block per day, commodities sorted;
+// "-" = no price for that commodity on that day; ERR when the journal cannot be loaded
+func obsC12Days(in string) (res string) {
+	defer func() {
+		if r := recover(); r != nil {
+			res = fmt.Sprint("PANIC:", r)
+		}
+	}()
+	cfgS, jS := splitInput(in)
+	v := strings.TrimSpace(cfgS)
+	j := DecodeJournal(jS)
+	set := map[string]bool{v: true}
+	for _, d := range j {
+		switch d.Kind {
+		case 'P':
+			set[d.Com], set[d.Target] = true, true
+		case 'T':
+			for _, b := range d.Bookings {
+				set[b.Com] = true
+			}
+		}
+	}
+	var names []string
+	for n := range set {
+		names = append(names, n)
+	}
+	sort.Strings(names)
+	withTempDir(func(dir string) {
+		f := writeFile(dir, "journal.knut", j.Text())
+		reg := registry.New()
+		b, err := journal.FromPath(context.Background(), reg, f)
+		if err != nil {
+			res = "ERR"
+			return
+		}
+		vc, err := reg.Commodities().Get(v)
+		if err != nil {
+			res = "ERR"
+			return
+		}
+		var blocks []string
+		coll := &journal.Processor{DayEnd: func(d *journal.Day) error {
+			var parts []string
+			for _, n := range names {
+				c, _ := reg.Commodities().Get(n)
+				if p, err := d.Normalized.Price(c); err == nil {
+					parts = append(parts, n+"="+p.String())
+				} else {
+					parts = append(parts, n+"=-")
+				}
+			}
+			blocks = append(blocks, fd(d.Date)+":"+strings.Join(parts, ";"))
+			return nil
+		}}
+		if err := b.Build().Process(journal.ComputePrices(vc), coll); err != nil {
+			res = "ERR"
+			return
+		}
+		res = strings.Join(blocks, " / ")
+	})
+	return res
+}
+
+// journals of prices, opens and transactions in which the first price declarations come before, on or after the
+// first transaction day, with days that carry only prices, only transactions, only opens, or several of them
+// (seeded change C12c-prices-inactive-before-first-transaction skipped the normalisation on the days before the
+// first transaction and never caught up; the library-level ops cannot see the processor)
+func genC12Days(out *caseWriter, seed uint64, n int, args []string) error {
+	var items []caseIn
+	for i := 0; i < n; i++ {
+		r := newRng(seed, "C12days", i)
+		coms := allComs[:r.rangeInt(2, 4)]
+		v := pick(r, coms)
+		d0 := time.Date(2020, 1, 1, 0, 0, 0, 0, time.UTC).AddDate(0, 0, r.intn(300))
+		j := Journal{{Kind: 'O', Date: dateStr(d0), Acc: "Assets:Bank"}, {Kind: 'O', Date: dateStr(d0), Acc: "Equity:Opening"}}
+		nd := r.rangeInt(2, 9)
+		firstTxn := r.intn(nd)
+		for k := 0; k < nd; k++ {
+			dt := dateStr(d0.AddDate(0, 0, 1+k*r.rangeInt(1, 3)+k))
+			if r.chance(55) {
+				for q := r.rangeInt(1, 3); q > 0; q-- {
+					c, t := pick(r, coms), pick(r, coms)
+					if c != t {
+						j = append(j, Dir{Kind: 'P', Date: dt, Com: c, Price: fmt.Sprintf("%d.%02d", r.rangeInt(0, 400), r.rangeInt(1, 99)), Target: t})
+					}
+				}
+			}
+			if k >= firstTxn && r.chance(60) || k == firstTxn {
+				j = append(j, Dir{Kind: 'T', Date: dt, Desc: "t", Bookings: []Booking{{"Equity:Opening", "Assets:Bank", randAmount(r, false), pick(r, coms)}}})
+			}
+			if r.chance(15) {
+				j = append(j, Dir{Kind: 'O', Date: dt, Acc: fmt.Sprintf("Assets:Extra%d", k)})
+			}
+		}
+		j = dropConflictingPrices(j)
+		r.shuffle(len(j), func(a, b int) { j[a], j[b] = j[b], j[a] })
+		items = append(items, caseIn{fmt.Sprintf("C12days-%d-%d", seed, i), "C12.days", v + " | " + j.Enc()})
+	}
+	out.addBatch(items)
+	return nil
 }
 
 // number of Normalize calls per case: an iteration order that deviates with probability 1/8 per
